@@ -87,6 +87,12 @@ CLAIMS = {
         "Trusts the harness proto3 parser for the subset of the language the two files use, and google.golang.org/protobuf's reflection of the generated code.",
         "DESIGN.md §7 C17",
     ),
+    "C05": (
+        "stateful property-based testing (rapid state machine over histories of resolutions) with a metamorphic fresh-twin oracle and client snapshots; concurrent batches under the Go race detector",
+        "Generated universes (npm, Maven, PyPI) and histories of resolve / resolve-again / concurrent batches (up to 16) / permuted reloads on one client and resolver; every returned graph must equal (harness isomorphism labeller) the graph of a brand-new client and resolver, and everything the client reports (Versions, Requirements, MatchingVersions for every package, version and requirement string, order included) must be unchanged after every action. A second binary built with -race runs the concurrent histories; any race report is a violation. Holds on everything explored; interleavings are sampled, not enumerated.",
+        "The harness does not own the Go scheduler: schedule independence is supported by the race detector (which reports any pair of unsynchronised conflicting accesses that both execute, whatever the timing) plus sequential determinism. Universes avoid the recorded npm alias-cycle non-termination by construction.",
+        "DESIGN.md §7 C05, §10",
+    ),
 }
 
 NOT_YET = "check under construction in this session (not yet claimed)"
